@@ -186,6 +186,23 @@ class Gen:
         Pn = (self.pub[db][0], P_ - self.pub[db][1])
         self.ecdh(da, comp(Pn), "ecdh:valid:compressed:other-parity")
         self.ecdh(da, bytes([5 - comp(self.pub[db])[0]]) + comp(self.pub[db])[1:], "ecdh:valid:compressed:flipped-tag")
+        # compressed peers in bulk (small private keys keep the model cheap): random points of both
+        # parities, and points CONSTRUCTED so that the Montgomery form of y^2 = x^3 - 3x + b is tiny
+        # or sits at the edges of [0, p): sums a + b in [p, 2^256) that do not carry
+        for i in range(24 if not self.thorough else 200):
+            Q = E.mul(1 + self.rnd(N - 1), E.G) if i % 4 == 0 else E.lift_x(self.rnd(P_), i & 1)
+            if Q is None: continue
+            self.ecdh(2 + i % 2, comp(Q), "ecdh:compressed:random:parity=%d" % (Q[1] & 1))
+        W = M256 - P_
+        vals = list(range(1, 9)) + [W - 2, W - 1, W, W + 1, P_ - 1, P_ - 2, P_ - 3, 2 ** 64, 2 ** 128, 2 ** 192, 2 ** 223, 2 ** 224 - 1, 2 ** 224]
+        cnt = 0
+        for v in vals:
+            for Q in E.points_with_mont_ysq(v, self.rnd):
+                cls = "tiny" if v < 9 else ("window-edge" if abs(v - W) <= 2 else ("top" if v > P_ - 9 else "pow2"))
+                self.ecdh(3, comp(Q), "ecdh:compressed:mont(y^2)=%s" % cls)
+                self.ecdh(3, comp((Q[0], P_ - Q[1])), "ecdh:compressed:mont(y^2)=%s:other-parity" % cls)
+                if cnt < 4: self.ecdh(3, unc(Q), "ecdh:uncompressed:mont(y^2)=%s" % cls)
+                cnt += 1
         # DESIGN 5 #4 (repaired by a33c088): encodings of the point at infinity must be refused
         self.ecdh(da, b"\x00", "ecdh:peer-infinity:00", expect="ERR")
         self.ecdh(da, b"\x04" + bytes(64), "ecdh:peer-infinity:04-zeros", expect="ERR")
@@ -344,6 +361,13 @@ def gen_malformed(g, bases):
             bit = r.below(256)
             h2 = bytearray(hh); h2[bit // 8] ^= 1 << (bit % 8)
             g.dodec(d, x, y, bytes(h2), c, "dodec:bad-C3:bit-flip", expect="ERR")
+        if L == 33:
+            for bit in range(256):           # every bit of C3
+                h2 = bytearray(hh); h2[bit // 8] ^= 1 << (bit % 8)
+                g.dodec(d, x, y, bytes(h2), c, "dodec:bad-C3:sweep:byte%%8=%d" % ((bit // 8) % 8), expect="ERR")
+            for pos in range(len(c)):        # one bit in every byte of C2
+                c3 = bytearray(c); c3[pos] ^= 1 << (pos % 8)
+                g.dodec(d, x, y, hh, bytes(c3), "dodec:bad-C2:sweep", expect="ERR")
         g.dodec(d, x, y, bytes(32), c, "dodec:bad-C3:zero", expect="ERR")
         c2 = bytearray(c); c2[r.below(len(c2))] ^= 1 << r.below(8)
         g.dodec(d, x, y, hh, bytes(c2), "dodec:bad-C2:bit-flip", expect="ERR")
@@ -396,6 +420,31 @@ def gen_malformed(g, bases):
             g.dstream(d, [ct[:200], ct[200:] + bytes(200)], "dstream:overflow-chunk", expect="ERR")
     for i in range(30 if not g.thorough else 300):
         g.dec(2, r.bytes(r.range(0, 120)), "dec:random-bytes", expect="ERR")
+    # sm2_ciphertext_print: same parse as sm2_decrypt; size queries; one SM2_DEC_CTX reused with reset
+    items = sorted(bases.items())
+    for L, (d, ct, m) in items:
+        for cls, a in (("valid", ct), ("trailing", ct + b"\0"), ("truncated", ct[:-1]), ("flipped-tag", b"\x31" + ct[1:])):
+            g.add(line="ctprint %s" % core.hexs(a), expr="c02_ctprint %s" % q(core.hexs(a)), cell="ctprint:%s" % cls, expect="OK" if cls == "valid" else "ERR")
+    g.add(line="ctprint -", expr="c02_ctprint %s" % q("-"), cell="ctprint:empty", expect="ERR")
+    for cls, chunks in (("0", []), ("1", [b"a"]), ("255", [r.bytes(200), r.bytes(55)]), ("256", [r.bytes(200), r.bytes(56)]), ("empty-chunks", [b"", b""])):
+        g.add(line="equery %s" % chunks_line(chunks), expr="c02_equery %s" % chunks_g(chunks), cell="equery:total=%s" % cls)
+    for cls, chunks in (("0", []), ("44", [r.bytes(44)]), ("45", [r.bytes(45)]), ("366", [r.bytes(300), r.bytes(66)]), ("367", [r.bytes(300), r.bytes(67)]), ("367-one-chunk", [r.bytes(367)])):
+        g.add(line="dquery %s" % chunks_line(chunks), expr="c02_dquery %s" % chunks_g(chunks), cell="dquery:total=%s" % cls)
+    same_d = [(L, v) for L, v in items if v[0] == items[0][1][0]]
+    allk = [(L, v) for L, v in items]
+    # context reuse: every ciphertext of one key through ONE SM2_DEC_CTX (init, update*, finish, reset, update*, finish ...)
+    by_d = {}
+    for L, (d, ct, m) in items: by_d.setdefault(d, []).append((ct, m))
+    for d, lst in by_d.items():
+        seq = lst + lst[::-1]
+        rounds = [r.split(ct, 3) for ct, _ in seq]
+        g.add(line="dctxr %s %s" % (h(d), ";".join(chunks_line(c_) for c_ in rounds)),
+              expr="c02_dctxr %s %s" % (q(h(d)), glist([chunks_g(c_) for c_ in rounds])),
+              cell="dctxr:reuse:%d-messages" % len(seq), expect=",".join(core.hexs(m_) for _, m_ in seq))
+        # an error in the middle (truncated ciphertext) ends the run with an error
+        rounds = [[seq[0][0]], [seq[0][0][:-1]], [seq[0][0]]]
+        g.add(line="dctxr %s %s" % (h(d), ";".join(chunks_line(c_) for c_ in rounds)),
+              expr="c02_dctxr %s %s" % (q(h(d)), glist([chunks_g(c_) for c_ in rounds])), cell="dctxr:error-in-the-middle", expect="ERR")
 
 
 def ecdh_symmetry(ctx, g, first, impl):
